@@ -156,7 +156,7 @@ for tier, srcs, tg in (('quick', CAST_Q, CAST_Q), ('thorough', CAST_T, CAST_T)):
             add(H('C09', nm, 'c09_from', f"26, {T}, {i.digit}, {i.n}; {_cast_targets(tg)}", tier=tier, inst=i.label,
                   funcs=f"As/CastFrom from {'BUint' if sg == 'u' else 'BInt'} {i.label} to {2 * len(tg)} bnum types (all digit types, wider/narrower/equal, both signs)",
                   bound='all source values, symbolic target bit index; unwind 26', cap=600))
-both('C09', 'c09_prim', CAST_Q, [i for i in CAST_T if i not in CAST_Q] + [I(8, 17), I(64, 5)], signs=('x',), unwind=lambda i: max(i.n, 16) + 2,
+both('C09', 'c09_prim', CAST_Q + [I(64, 3)], [i for i in CAST_T if i not in CAST_Q + [I(64, 3)]] + [I(8, 17), I(64, 5)], signs=('x',), unwind=lambda i: max(i.n, 16) + 2,
      group='<-> all 12 primitive integers, bool, char; cast_signed/cast_unsigned/to_bits/from_bits', bound='all source values, symbolic bit index')
 
 
@@ -466,6 +466,90 @@ for i, tier in ((I(8, 1), 'quick'), (I(64, 2), 'thorough')):
           funcs='from_str_radix / parse_bytes / from_radix_be / from_radix_le with an out-of-range radix', bound='all radices outside 2..=36 (2..=256)'))
 
 
+# ---------------------------------------------------------------- C11
+import math
+
+
+def c11(i, sg, R, tier, with_str, vmax=0, cap=1800, seeded=False, core=False):
+    T = i.U if sg == 'u' else i.I
+    bits = i.bits if not vmax else vmax.bit_length()
+    maxd = max(1, math.ceil(bits / math.log2(R)))
+    if R & (R - 1) == 0:
+        maxd = math.ceil(bits / int(math.log2(R)))
+    add(H('C11', f"c11_radix_{sg}_{i.tag}_r{R}", 'c11_radix', f"{max(maxd, i.bytes) + 3}, {T}, {i.digit}, {i.n}, {R}, {maxd}, {'true' if with_str else 'false'}, {vmax}",
+          tier=tier, cap=cap, inst=i.label, seeded=seeded, core=core, mem_gb=28,
+          funcs=f"{'BUint' if sg == 'u' else 'BInt'}::to_radix_le/to_radix_be" + ('/to_str_radix' if with_str else '') + ' + round trip through from_radix_*' + ('/from_str_radix' if with_str else ''),
+          bound=('all values' if not vmax else f'all values <= {vmax}') + f', radix {R} (concrete)'))
+
+
+for R in (2, 10, 16, 36):
+    c11(I(8, 1), 'u', R, 'quick', True, core=(R in (2, 16)))
+for R in (3, 8, 255, 256):
+    c11(I(8, 1), 'u', R, 'quick', R <= 36)
+for R in (10, 16):
+    c11(I(8, 1), 'i', R, 'quick', True)
+for R in range(2, 257):
+    if R not in (2, 3, 8, 10, 16, 36, 255, 256):
+        c11(I(8, 1), 'u', R, 'quick' if R in (7, 32, 100, 128) else 'thorough', R <= 36, seeded=False)
+for R in (2, 3, 7, 8, 32, 36, 100, 128, 255, 256):
+    c11(I(8, 1), 'i', R, 'thorough', R <= 36)
+for i, vmax in ((I(16, 1), 0), (I(32, 1), 65535), (I(64, 1), 65535)):
+    for R in (16, 256, 10, 8):
+        c11(i, 'u', R, 'quick' if (R in (256,) or (i.bits == 16 and R == 16)) else 'thorough', R <= 36, vmax=vmax, cap=3600)
+for R in (2, 8, 10, 16, 32, 36, 255, 256):
+    c11(I(8, 2), 'u', R, 'thorough', R <= 36 and R in (10, 16), cap=7200)
+for i, R, tier in ((I(8, 1), 10, 'quick'), (I(8, 1), 16, 'quick'), (I(8, 1), 2, 'thorough'), (I(8, 1), 36, 'thorough'), (I(8, 2), 10, 'thorough')):
+    maxd = math.ceil(i.bits / math.log2(R))
+    add(H('C11', f"c11_str_neg_{i.tag}_r{R}", 'c11_str_neg', f"{maxd + 5}, {i.I}, {i.digit}, {i.n}, {R}, {maxd}", tier=tier, cap=3600, inst=i.label, core=False, mem_gb=28,
+          funcs="BInt::to_str_radix for negative values ('-' + magnitude) + round trip", bound=f'all negative values, radix {R}'))
+add(H('C11', "c11_radix_panic_d8x1", 'c11_radix_panic', f"12, {I(8, 1).U}, {I(8, 1).I}", inst=I(8, 1).label, kind='panic', cap=1800, core=False,
+      funcs='to_radix_le/be, to_str_radix with an out-of-range radix', bound='radices 0, 1, 37 / 257, u32::MAX'))
+
+
+# ---------------------------------------------------------------- C20
+for i, tier, cap in ((I(8, 1), 'quick', 900), (I(8, 2), 'thorough', 7200), (I(16, 1), 'thorough', 7200)):
+    for sg, T in (('u', i.U), ('i', i.I)):
+        nm = 'BUint' if sg == 'u' else 'BInt'
+        add(H('C20', f"c20_range_{sg}_{i.tag}", 'c20_range', f"{i.bytes + 4}, {T}, {i.digit}, {i.n}", tier=tier, cap=cap, inst=i.label, core=(i.bits == 8), mem_gb=24,
+              funcs=f"{nm} gen_range(a..b), gen_range(a..=b), Uniform::new(..).sample, Uniform::new_inclusive(..).sample, sample_single, sample_single_inclusive",
+              bound='all bounds, all RNG streams with at most 2 rejections (3 draws)'))
+        for single in (False, True):
+            add(H('C20', f"c20_unbiased_{'single' if single else 'uniform'}_{sg}_{i.tag}", 'c20_unbiased', f"{i.bytes + 4}, {T}, {i.digit}, {i.n}, {'true' if single else 'false'}",
+                  tier=tier, cap=cap, inst=i.label, core=(i.bits == 8), mem_gb=24,
+                  funcs=f"{nm} {'sample_single_inclusive' if single else 'Uniform::sample'}: equal number of accepted RNG words per value",
+                  bound='all bounds, all pairs of offsets, all word positions inside a block (relational 2-run query)'))
+for i, tier in ((I(8, 1), 'quick'), (I(8, 3), 'quick'), (I(64, 2), 'quick'), (I(16, 2), 'thorough'), (I(32, 3), 'thorough'), (I(64, 1), 'thorough'), (I(64, 3), 'thorough')):
+    add(H('C20', f"c20_fill_{i.tag}", 'c20_fill', f"{3 * i.bytes + 3}, {i.U}, {i.I}, {i.digit}, {i.n}", tier=tier, cap=1800, inst=i.label, mem_gb=24,
+          funcs='Standard (rng.gen) for BUint/BInt, Fill / try_fill_slice for slices of length 0..=3', bound='all RNG streams, symbolic byte index'))
+
+
+# ---------------------------------------------------------------- C16
+def c16_pair(macro, a, b, sg, tier, extra='', cap=1200, core=True, label=''):
+    A, B = (a.U, b.U) if sg == 'u' else (a.I, b.I)
+    add(H('C16', f"{macro}_{sg}_{a.tag}_{b.tag}", macro, f"{max(a.n, b.n, a.bytes if 'lin' in macro or 'shift' in macro else 0) + 3}, {A}, {a.digit}, {a.n}, {B}, {b.digit}, {b.n}{extra}",
+          tier=tier, cap=cap, inst=f"{a.label} vs {b.label}", core=core, funcs=label, bound='all operand values' if 'alpha' not in extra else 'digits over the boundary alphabet'))
+
+
+for sg in ('u', 'i'):
+    for a, b, tier in ((I(8, 4), I(32, 1), 'quick'), (I(8, 4), I(16, 2), 'quick'), (I(8, 8), I(64, 1), 'quick'), (I(16, 4), I(32, 2), 'quick'), (I(8, 16), I(64, 2), 'quick'),
+                       (I(8, 2), I(16, 1), 'quick'), (I(8, 6), I(16, 3), 'thorough'), (I(8, 8), I(16, 4), 'thorough'), (I(32, 2), I(64, 1), 'thorough'), (I(32, 4), I(64, 2), 'thorough'),
+                       (I(16, 8), I(64, 2), 'thorough'), (I(8, 12), I(32, 3), 'thorough')):
+        c16_pair('c16_same_width_lin', a, b, sg, tier, label='equal width, two digit types: add/sub/neg/cmp/bitwise/counts/swap/reverse/saturating/casts')
+        c16_pair('c16_same_width_shift', a, b, sg, tier, label='equal width, two digit types: shl/shr/rotate/unbounded shifts, amount over all of u32')
+    c16_pair('c16_same_width_mul', I(8, 2), I(16, 1), sg, 'quick', extra=', any', cap=3600, core=False, label='equal width 16: mul/div/rem/pow full operands')
+    for a, b in ((I(8, 4), I(32, 1)), (I(16, 2), I(32, 1)), (I(8, 8), I(64, 1))):
+        c16_pair('c16_same_width_mul', a, b, sg, 'thorough', extra=', any_alpha', cap=5400, core=False, label='equal width: mul/div/rem/pow, alphabet operands')
+    for a, b, mul, tier in ((I(8, 1), I(8, 2), 'true', 'quick'), (I(8, 1), I(16, 1), 'true', 'thorough'), (I(8, 2), I(8, 3), 'false', 'quick'), (I(16, 1), I(32, 1), 'false', 'quick'),
+                            (I(64, 1), I(64, 2), 'false', 'quick'), (I(8, 3), I(64, 1), 'false', 'thorough'), (I(32, 1), I(8, 5), 'false', 'thorough'), (I(64, 2), I(64, 3), 'false', 'thorough')):
+        c16_pair('c16_extend', a, b, sg, tier, extra=f', {mul}', cap=3600, core=(mul == 'false'),
+                 label='zero-/sign-extension commutes with add/sub/cmp/shl' + (' and mul/div/rem/pow' if mul == 'true' else ''))
+for tier, insts in (('quick', LIN_Q), ('thorough', LIN_T + [I(64, 17), I(8, 40)])):
+    for i in insts:
+        add(H('C16', f"c16_consts_{i.tag}", 'c16_consts', f"{i.n + 2}, {i.std().rsplit(',', 1)[0]}", tier=tier, inst=i.label,
+              funcs='BITS, BYTES, MIN, MAX, ZERO, ONE..TEN, NEG_ONE..NEG_TEN', bound='no symbolic input: constants evaluated inside the harness'))
+add(H('C16', 'c16_aliases', 'c16_aliases', '4', inst='U128..U8192 / I128..I8192', funcs='type aliases have the named widths', bound='no symbolic input'))
+
+
 def by_prop(p):
     return [h for h in REG if h.prop == p]
 
@@ -478,6 +562,12 @@ OUTSIDE = {
     'C05': ['widths above 320 bits', 'value of wrapping/overflowing shifts for amounts >= BITS on non-power-of-two widths (only flag/None asserted, as the property states)'],
     'C06': ['widths above 320 bits', 'bit / set_bit / power_of_two with index >= BITS'],
     'C07': ['widths above 320 bits'],
+    'C09': ['bnum types outside the 20-type cast set', 'float casts (C14)'],
+    'C10': ['strings longer than capacity + 2 characters (10 bytes for radix 2 at 8 bits)', 'full-length strings for widths above 16 bits', 'radices not listed at full length (quick tier: 2, 10, 16, 36 and 2..=36 at length <= 3)'],
+    'C13': ['From from a primitive wider than the target (README limitation)', 'known finding F5'],
+    'C14': ['int -> float above 192 bits (quick) / for non-u64 digit types above 128 bits'],
+    'C15': ['nightly-only *_bytes methods', 'slices for widths above 128 bits', 'big-endian targets'],
+    'C19': ['negative non-zero floats into unsigned targets (unconstrained by the property)'],
 }
 ASSUME = {
     'C01': ['from_digits/from_bits/digits()/to_bits are the identity on the digit array (decided under C13)'],
@@ -512,6 +602,31 @@ CLAIMS = {
                   'equality is digit-array identity; equal values feed identical streams to a recording Hasher; signum/is_positive/is_negative.',
                   'widths above 320 bits (hashing: above 320 bits; only the write stream of core::hash::Hash is observed).',
                   'sign of the exact (N+1)-digit difference'),
+    'C09': _claim('As/CastFrom between bnum types of every digit-type combination (wider, narrower, equal, widths that are and are not multiples of the other digit), between '
+                  'bnum types and all 12 primitive integers in both directions, from bool and char, and cast_signed/cast_unsigned/to_bits/from_bits satisfy the bit-indexed '
+                  '`as` specification out[i] = (i < W_src ? src[i] : sign(src)).',
+                  'bnum types outside the 20-type set {U,I} x {D8x1,3,5, D16x1,3, D32x1,3, D64x1,2,3} (+ D8x17, D64x5 for primitives); float casts are C14.',
+                  'bit-indexed specification with a symbolic target bit index'),
+    'C10': _claim('from_str_radix / FromStr / parse_bytes / from_radix_be / from_radix_le agree with a reference parser (sign, digit values, exact Horner value, representability, '
+                  'error kind) on ALL byte strings up to the stated length for the listed radices, including strings one and two characters longer than the capacity (leading zeros).',
+                  'strings longer than 10 bytes (radix 2) / capacity + 2; widths above 16 bits in full (32/64-bit types only with 4-character strings); radices other than the listed ones at full length.',
+                  'reference parser in the harness, exact u64 Horner evaluation'),
+    'C13': _claim('TryFrom (bnum -> 12 primitives), BTryFrom between bnum types across all digit types, From/TryFrom from primitives into targets at least as wide, From<bool/char>, '
+                  'from_digit(s)/digits/From<[D;N]> return Ok with the same value exactly when the value is representable.',
+                  'bnum types outside the C09 type set; From from a primitive wider than the target (README limitation); known finding F5 (From<uN> for a signed type of equal width).',
+                  'representability = all bits above the target value range equal the source sign (loop over the source digits); value by the C09 bit specification'),
+    'C14': _claim('CastFrom<f32/f64> for bnum integers satisfies the bit-indexed truncate-and-saturate specification for ALL 2^32 / 2^64 float bit patterns (and equals the primitive `as` + '
+                  'saturation for widths <= 128); bnum -> f32/f64 equals the primitive `as` bit for bit for widths <= 128 and a round-to-nearest-even specification for 192-bit u64-digit types.',
+                  'int -> float above 128 bits for digit types other than u64 and above 192 bits in the quick tier (320 / 1088 bits in the thorough tier).',
+                  'independent IEEE-754 decode + bit-indexed spec; primitive `as` as second oracle'),
+    'C15': _claim('from_be_slice / from_le_slice on all byte buffers with every slice length 0..=2*BYTES+2 satisfy the byte-indexed specification (Some exactly when the excess bytes are padding and '
+                  'the sign is kept; value bytes; empty slice is zero); to_be/from_be/to_le/from_le on the little-endian target.',
+                  'the nightly-only to/from_{be,le,ne}_bytes (not built in this revision); widths above 128 bits for slices; big-endian targets.',
+                  'byte-indexed specification with symbolic slice length and byte index'),
+    'C19': _claim('FromPrimitive::from_{u8..u128,i8..i128,usize,isize} (incl. targets narrower than the source), from_f32/from_f64 over all float bit patterns, ToPrimitive::to_* and '
+                  'AsPrimitive::as_ return Some exactly for representable values, with the right value, and never panic.',
+                  'widths outside {8, 24, 16, 64, 128} (+ 16/48/32/192/136 thorough); negative non-zero floats into unsigned targets are left unconstrained, as the property does.',
+                  'range test on the extended bit pattern; independent IEEE-754 decode for floats'),
 }
 NOT_APPLICABLE = {f'C{n:02d}': 'check not built yet in this revision of /verif (work in progress)' for n in range(1, 21)}
 NOT_APPLICABLE['C12'] = ('formatting traits: Kani 0.68 mis-encodes the `if s.is_empty() {"0"} else {&s}` &str expression used by bnum fmt (spurious '
